@@ -3,6 +3,7 @@ package main
 // Evaluation of specification expressions (requires / ensures / invariants / lemmas).
 
 import (
+	"sort"
 	"fmt"
 	"go/ast"
 	"go/constant"
@@ -20,6 +21,7 @@ type specEnv struct {
 	vars    map[string]Val
 	resolve func(name string) (Val, bool) // program variables by name (in env.st)
 	resolveOld func(name string) (Val, bool)
+	addrOf  func(name string) (string, bool)
 	pkgScope *types.Scope
 	depth   int
 	err     *[]string
@@ -493,6 +495,14 @@ func (env *specEnv) call(e *ast.CallExpr) Val {
 		return Val{T: "(>= " + r + " " + env.old.alloc + ")", Sort: "Bool"}
 	case "ref":
 		return Val{T: sRef(arg(0).T), Sort: "Int"}
+	case "addr":
+		// address of a heap-resident (boxed) local variable
+		if id, ok := e.Args[0].(*ast.Ident); ok && env.addrOf != nil {
+			if t, ok := env.addrOf(id.Name); ok {
+				return Val{T: t, Sort: "Int"}
+			}
+		}
+		return env.fail("addr() of a variable that is not heap-resident")
 	case "off":
 		return Val{T: sOff(arg(0).T), Sort: "Int"}
 	case "errors.Is":
@@ -535,6 +545,23 @@ func (env *specEnv) call(e *ast.CallExpr) Val {
 		if len(sf.Params) != len(e.Args) {
 			return env.fail("spec function " + name + ": wrong arity")
 		}
+		if sf.Opaque {
+			pd, err := fv.eng.predDef(fv, sf)
+			if err != "" {
+				return env.fail(err)
+			}
+			var as []string
+			for _, h := range pd.heaps {
+				as = append(as, fv.heapOf(env.st, h))
+			}
+			for _, h := range pd.oldHeaps {
+				as = append(as, fv.heapOf(env.old, h))
+			}
+			for i := range e.Args {
+				as = append(as, arg(i).T)
+			}
+			return Val{T: "(" + pd.name + " " + strings.Join(as, " ") + ")", Sort: "Bool"}
+		}
 		if env.depth > 20 {
 			return env.fail("spec function recursion too deep: " + name)
 		}
@@ -554,4 +581,102 @@ func (env *specEnv) call(e *ast.CallExpr) Val {
 		return v
 	}
 	return env.fail("unknown spec function " + name)
+}
+
+// ---- opaque predicates ----
+
+type predDef struct {
+	name     string
+	heaps    []string
+	oldHeaps []string // two-state predicates: heaps read under old(...)
+	formals  []string // formal argument names in application order
+	body     string
+}
+
+// paramVal builds a formal parameter value of the given kind (ghost kind or Go type expression).
+func (eng *Engine) paramVal(fv *FuncVerifier, name, kind, pkgPath string) (Val, string) {
+	switch kind {
+	case "int", "bool", "seq", "seqseq", "slice", "sliceseq", "real", "str":
+		return Val{T: name, Sort: ghostSort(kind)}, ghostSort(kind)
+	}
+	p := eng.pkgs[pkgPath]
+	if p == nil {
+		p = fv.pkg
+	}
+	tv, err := types.Eval(p.Fset, p.Types, token.NoPos, kind)
+	if err != nil || !tv.IsType() {
+		return Val{}, ""
+	}
+	return Val{T: name, Ty: tv.Type}, eng.sc.sortOf(tv.Type)
+}
+
+func (eng *Engine) predDef(fv *FuncVerifier, sf *SpecFunc) (*predDef, string) {
+	if pd, ok := eng.preds[sf.Name]; ok {
+		return pd, ""
+	}
+	// evaluate the body once over formal parameters and formal heaps
+	st := &State{vars: map[types.Object]string{}, ghost: map[string]Val{}, heaps: map[string]string{}, pc: "true", locks: map[string]string{}, symHeaps: map[string]bool{}, symPrefix: "HV_", anc: map[int]bool{0: true}, alloc: "pa_alloc"}
+	ost := &State{vars: map[types.Object]string{}, ghost: map[string]Val{}, heaps: map[string]string{}, pc: "true", locks: map[string]string{}, symHeaps: map[string]bool{}, symPrefix: "HVO_", anc: map[int]bool{0: true}, alloc: "pa_alloc"}
+	vars := map[string]Val{}
+	var binders []string
+	var formals []string
+	for _, p := range sf.Params {
+		v, srt := eng.paramVal(fv, "pa_"+p.Name, p.Kind, sf.Pkg)
+		if srt == "" {
+			return nil, "pred " + sf.Name + ": cannot resolve parameter type " + p.Kind
+		}
+		vars[p.Name] = v
+		binders = append(binders, "(pa_"+p.Name+" "+srt+")")
+		formals = append(formals, "pa_"+p.Name)
+	}
+	var errs []string
+	env := &specEnv{fv: fv, st: st, old: ost, vars: vars, err: &errs, depth: 1}
+	if p := eng.pkgs[sf.Pkg]; p != nil {
+		env.pkgScope = p.Types.Scope()
+	}
+	// register before evaluating to allow (guarded) recursion
+	pd := &predDef{name: "pred." + sf.Name}
+	eng.preds[sf.Name] = pd
+	body := env.eval(sf.Body)
+	if len(errs) > 0 {
+		delete(eng.preds, sf.Name)
+		return nil, "pred " + sf.Name + ": " + strings.Join(errs, "; ")
+	}
+	var hs []string
+	for h := range st.symHeaps {
+		hs = append(hs, h)
+	}
+	sort.Strings(hs)
+	pd.heaps = hs
+	var hb, hf []string
+	var sorts []string
+	for _, h := range hs {
+		hb = append(hb, "(HV_"+h+" "+eng.sc.heaps[h]+")")
+		hf = append(hf, "HV_"+h)
+		sorts = append(sorts, eng.sc.heaps[h])
+	}
+	var ohs []string
+	for h := range ost.symHeaps {
+		ohs = append(ohs, h)
+	}
+	sort.Strings(ohs)
+	pd.oldHeaps = ohs
+	for _, h := range ohs {
+		hb = append(hb, "(HVO_"+h+" "+eng.sc.heaps[h]+")")
+		hf = append(hf, "HVO_"+h)
+		sorts = append(sorts, eng.sc.heaps[h])
+	}
+	for _, p := range sf.Params {
+		_, srt := eng.paramVal(fv, "x", p.Kind, sf.Pkg)
+		sorts = append(sorts, srt)
+	}
+	app := "(" + pd.name + " " + strings.Join(append(hf, formals...), " ") + ")"
+	eng.predDecls = append(eng.predDecls, "(declare-fun "+pd.name+" ("+strings.Join(sorts, " ")+") Bool)")
+	eng.predDecls = append(eng.predDecls, "")
+	_ = hb
+	_ = binders
+	_ = app
+	pd.formals = append(append([]string{}, hf...), formals...)
+	pd.body = body.T
+	return pd, ""
 }
